@@ -224,6 +224,17 @@ func c01Flows(rc *RunCtx, rounds int) {
 			if int(e.M.Threshold) != t {
 				continue
 			}
+			// a disable naming an enabled key in a spelling under which it is not enabled names an unknown attester:
+			// it must be refused, and the key keeps counting
+			for _, k := range e.EnabledPoolKeys() {
+				for st := 0; st < 4; st++ {
+					if sp := k.Spell(st); !e.M.Attesters[sp] {
+						rep := e.Exec(Tx{Msgs: msgs1(&ct.MsgDisableAttester{From: e.M.AM, Attester: sp}), Note: "c01 flows disable under another spelling"})
+						rc.Cov.Cell("C01_flow_op", "disable-other-spelling/"+okWord(rep.OK))
+						break
+					}
+				}
+			}
 			// fresh originals for the two replace flows
 			e.Exec(Tx{Msgs: msgs1(p.ValidSend(round%2 == 0)), Note: "c01 flows original send"})
 			e.Exec(Tx{Msgs: msgs1(p.ValidDeposit(round%2 == 1, 0)), Note: "c01 flows original deposit"})
